@@ -137,7 +137,69 @@ def effect_problem(ins, group, image, variables):
     return None
 
 
+def _spell(v, style):
+    sign = "-" if v < 0 else ""
+    a = abs(v)
+    return {"dec": sign + str(a), "hex": sign + "0x%x" % a, "HEX": sign + "0x%X" % a, "bin": sign + "0b" + bin(a)[2:]}[style]
+
+
+def grid_lines():
+    """Deterministic spelling grid: every register name (xN and ABI) in every operand position of one instruction per
+    format, and every number spelling of boundary values in every numeric operand position.
+    -> list of (source line, expected abstract instruction at that line's address, uses-pc)"""
+    names = [("x%d" % r, r) for r in range(32)] + [(n, r) for r, ns in asm.ABI.items() for n in ns]
+    out = []
+    for name, r in names:
+        out += [(f"add {name}, x1, x2", ["add", r, 1, 2]), (f"sub x1, {name}, x2", ["sub", 1, r, 2]), (f"xor x1, x2, {name}", ["xor", 1, 2, r]),
+                (f"addi {name}, x1, -3", ["addi", r, 1, -3]), (f"andi x1, {name}, 7", ["andi", 1, r, 7]),
+                (f"slli {name}, x2, 3", ["slli", r, 2, 3]), (f"srai x2, {name}, 31", ["srai", 2, r, 31]),
+                (f"lw {name}, 4(x1)", ["lw", r, 1, 4]), (f"lb x1, -4({name})", ["lb", 1, r, -4]), (f"lhu x1, {name}, 8", ["lhu", 1, r, 8]),
+                (f"lh {name}, x1, 8", ["lh", r, 1, 8]),
+                (f"sw {name}, 4(x1)", ["sw", 1, r, 4]), (f"sb x1, -1({name})", ["sb", r, 1, -1]), (f"sh {name}, x1, 2", ["sh", 1, r, 2]),
+                (f"sh x1, {name}, 2", ["sh", r, 1, 2]),
+                (f"beq {name}, x1, 8", ["beq", r, 1, 8]), (f"bgeu x1, {name}, -8", ["bgeu", 1, r, -8]),
+                (f"lui {name}, 5", ["lui", r, 5]), (f"auipc {name}, -1", ["auipc", r, -1]),
+                (f"jalr {name}, x1, 4", ["jalr", r, 1, 4]), (f"jalr x1, {name}, -4", ["jalr", 1, r, -4]),
+                (f"mv {name}, x3", ["addi", r, 3, 0]), (f"mv x3, {name}", ["addi", 3, r, 0]), (f"li {name}, 9", ["addi", r, 0, 9]),
+                (f"csrrw {name}, 0x300, x1", ["csrrw", r, 0x300, 1]), (f"csrrs x1, 768, {name}", ["csrrs", 1, 768, r]),
+                (f"csrrwi {name}, 3, 4", ["csrrwi", r, 3, 4])]
+    for style in ("dec", "hex", "HEX", "bin"):
+        for v in (0, 1, -1, 2047, -2048, 5, -5, 0x7FF, 0x400, 4095, 2048, 100, -100):
+            t = _spell(v, style)
+            i12 = rv32.sx(v, 12)
+            out += [(f"addi x1, x2, {t}", ["addi", 1, 2, i12]), (f"sltiu x1, x2, {t}", ["sltiu", 1, 2, i12]), (f"lw x1, {t}(x2)", ["lw", 1, 2, i12]),
+                    (f"lbu x1, x2, {t}", ["lbu", 1, 2, i12]), (f"sw x1, {t}(x2)", ["sw", 2, 1, i12]), (f"sh x1, x2, {t}", ["sh", 2, 1, i12]),
+                    (f"jalr x1, x2, {t}", ["jalr", 1, 2, i12])]
+        for v in (0, 1, 15, 16, 31):
+            out += [(f"slli x1, x2, {_spell(v, style)}", ["slli", 1, 2, v]), (f"csrrwi x1, {_spell(v * 100, style)}, {_spell(v, style)}", ["csrrwi", 1, v * 100, v])]
+        for v in (0, 1, -1, 0x7FFFF, -0x80000, 0xFFFFF, 0x80000, 0x12345):
+            out += [(f"lui x1, {_spell(v, style)}", ["lui", 1, rv32.sx(v, 20)]), (f"auipc x2, {_spell(v, style)}", ["auipc", 2, rv32.sx(v, 20)])]
+        for v in (0, 2, -2, 8, -8, 4094, -4096, 100, -100):
+            out += [(f"beq x1, x2, {_spell(v, style)}", ["beq", 1, 2, v]), (f"bltu x3, x4, {_spell(v, style)}", ["bltu", 3, 4, v])]
+    return out
+
+
+def check_grid(case, stats):
+    lines = grid_lines()[case["lo"]:case["hi"]]
+    text = "\n".join(l for l, _ in lines) + "\n"
+    try:
+        sim = _load(text)
+    except Exception as ex:
+        ln = getattr(ex, "line_number", None)
+        bad = lines[ln - 1][0] if isinstance(ln, int) and 1 <= ln <= len(lines) else "?"
+        raise Violation("well-formed-line-rejected", case, f"{type(ex).__name__}: {ex!r}: line {bad!r}")
+    em, err = emitted(sim)
+    if em is None or len(em) != len(lines):
+        raise Violation("grid-instruction-count", case, err or f"{len(em)} instructions for {len(lines)} lines")
+    for (line, want), (got, _abs) in zip(lines, em):
+        if got != want:
+            raise Violation("spelling-grid", case, f"{line!r} assembles to {got}, denotes {want}")
+        stats.count(["grid", line], True, {"grid"}, sample_tag="grid")
+
+
 def check(case, stats):
+    if case.get("kind") == "grid":
+        return check_grid(case, stats)
     ast = case["ast"]
     text, line_of = asm.render(ast, case["tape"])
     try:
@@ -263,8 +325,16 @@ def corpus():
 
 def shards(tier, seed):
     n, k = (300, 4) if tier == "quick" else (2500, 16)
-    return [{"n": n, "seed": seed * 1000 + i, "lines": 25 if i % 2 else 12} for i in range(k)]
+    items = [{"n": n, "seed": seed * 1000 + i, "lines": 25 if i % 2 else 12} for i in range(k)]
+    total = len(grid_lines())
+    step = 600
+    items += [{"what": "grid", "lo": lo, "hi": min(total, lo + step)} for lo in range(0, total, step)]
+    return items
 
 
 def run_shard(item, stats):
+    if item.get("what") == "grid":
+        core.run_cases([{"kind": "grid", "lo": item["lo"], "hi": item["hi"]}], check, stats, core.known_matcher(ID, known_match))
+        stats.exhaustive_parts.append("register-name x operand-position grid and number-spelling grid (deterministic)")
+        return
     core.hyp_search(case_strategy(item["lines"]), check, stats, item["n"], item["seed"], core.known_matcher(ID, known_match))
